@@ -63,3 +63,21 @@ PROPS["C07"] = dict(
     assumptions=COMMON_ASSUME[:1] + ["operands are zero-based (index bases are C19's subject)", "ordering operators between views of different element or pointer-constness types are not instantiated (mixed-type < is ambiguous or absent in the library); those pairs take part in == / != only",
                  "0-D: array<T,0> == array<T,0> does not compile on the pinned tree (known finding); the forms that compile (A() op B(), ordering of arrays, array == element) are checked"],
 )
+
+PROPS["C19"] = dict(
+    targets=[dict(name="C19", src="vp/props/C19.cpp", maxlen=13 + 4*10)],
+    quick=dict(cases=2000, floor=16000),
+    thorough=dict(cases=40000, floor=300000, fuzz=dict(time=360)),
+    level="exploration",
+    level_text=("The C01 and C02 programs (view-operation sequences, element access through all paths, iterator and elements() laws) are generated over roots whose index "
+                "extensions start at -3..3 per dimension, with reindexed() and blocked() among the operations; index arguments are drawn as ordinals and shifted by the current "
+                "first index, and the model (which tracks the first index per dimension) states which root element every index tuple must designate -- exactly the element the "
+                "zero-based twin designates at the shifted index. Bounded exploration; cannot prove absence."),
+    technique="metamorphic/model-based testing: generated view programs on re-based arrays vs an index-mapping model with explicit first indices (rapidcheck + libFuzzer)",
+    rule=("case = header bit selects the C01 program (shape + element checks) or the C02 program (iterators, elements(), cursors); root kind x D in 1..4 x extents 0..7 x base in -3..3 "
+          "per dimension + up to 10 operations incl. reindexed(i) and blocked(a,b); strided(s) only where s divides the current first index (extension() asserts offset % stride == 0) and "
+          "diagonal() only on zero-based views (it slices with literal {0,n}); oracle as in C01/C02 with first indices in the model. "
+          "non-trivial = as in the replayed program; distinct = hash of decoded case text"),
+    assumptions=COMMON_ASSUME + ["re-based arrays with zero elements: only shape operations are applied (slicing trips the recorded null-pointer-offset assertion)",
+                 "assignment (C05) and reextent (C06) on re-based arrays are exercised by the C05/C06 checks' own based variants when present, not here"],
+)
